@@ -1,10 +1,13 @@
 package proto
 
 import (
+	"testing"
+
 	"crypto/sha256"
 	"crypto/sha3"
 	"crypto/sha512"
 	"fmt"
+	ntu "github.com/bronlabs/bron-crypto/pkg/network/testutils"
 	"hash"
 	"io"
 	"math/big"
@@ -51,6 +54,11 @@ type SchnorrSigner interface {
 	// Aggregate runs the non-cosigning aggregator over the partial signatures and returns the
 	// signature; the library aggregator verifies it before returning.
 	Aggregate(baseShard any, message []byte, partials map[ID]any) (*SchnorrSig, error)
+	// CosigningSign drives the three Lindell22 rounds IN MEMORY through the exported round methods
+	// (every message through CBOR) and then aggregates the partial signatures with EVERY cosigner's
+	// cosigning aggregator (identifiable abort) and with the plain aggregator. It returns one
+	// signature per aggregator; ok=false when the flavour has no cosigning wiring.
+	CosigningSign(tb testing.TB, ctxs map[ID]*session.Context, bases map[ID]any, quorum []ID, comp compiler.Name, message []byte, seed uint64) (sigs []*SchnorrSig, ok bool, err error)
 	// VerifyLib runs the library's single-party verifier on the signature produced by Aggregate
 	// (kept inside the value it returned).
 	VerifyLib(baseShard any, message []byte, sig *SchnorrSig) error
@@ -65,7 +73,9 @@ type schnorrSuite[GE algebra.PrimeGroupElement[GE, S], S algebra.PrimeFieldEleme
 	message   func([]byte) (M, error)
 	aggregate func(pm *lindell22.PublicMaterial[GE, S], partials map[ID]*lindell22.PartialSignature[GE, S], msg M) (*schnorrlike.Signature[GE, S], error)
 	verify    func(pm *lindell22.PublicMaterial[GE, S], sig *schnorrlike.Signature[GE, S], msg M) error
-	last      map[string]*schnorrlike.Signature[GE, S]
+	// cosAggregate aggregates with the COSIGNING aggregator of one cosigner (nil: flavour not wired)
+	cosAggregate func(c *l22signing.Cosigner[GE, S, M], pm *lindell22.PublicMaterial[GE, S], partials map[ID]*lindell22.PartialSignature[GE, S], msg M) (*schnorrlike.Signature[GE, S], error)
+	last         map[string]*schnorrlike.Signature[GE, S]
 }
 
 func (s *schnorrSuite[GE, S, M]) Name() string      { return s.name }
@@ -182,6 +192,17 @@ func SchnorrSigners() []SchnorrSigner {
 			}
 			return agg.Aggregate(hashmap.NewImmutableComparableFromNativeLike(ps), msg)
 		},
+		cosAggregate: func(c *l22signing.Cosigner[*k256.Point, *k256.Scalar, bip340.Message], pm *lindell22.PublicMaterial[*k256.Point, *k256.Scalar], ps map[ID]*lindell22.PartialSignature[*k256.Point, *k256.Scalar], msg bip340.Message) (*schnorrlike.Signature[*k256.Point, *k256.Scalar], error) {
+			sc, err := bip340.NewScheme(vlib.NewPRNG(1, "agg"))
+			if err != nil {
+				return nil, err
+			}
+			agg, err := l22signing.NewCosigningAggregator(c, pm, sc)
+			if err != nil {
+				return nil, err
+			}
+			return agg.Aggregate(hashmap.NewImmutableComparableFromNativeLike(ps), msg)
+		},
 		verify: func(pm *lindell22.PublicMaterial[*k256.Point, *k256.Scalar], sig *schnorrlike.Signature[*k256.Point, *k256.Scalar], msg bip340.Message) error {
 			sc, err := bip340.NewScheme(vlib.NewPRNG(1, "ver"))
 			if err != nil {
@@ -207,6 +228,17 @@ func SchnorrSigners() []SchnorrSigner {
 				return nil, err
 			}
 			agg, err := l22signing.NewAggregator(pm, sc)
+			if err != nil {
+				return nil, err
+			}
+			return agg.Aggregate(hashmap.NewImmutableComparableFromNativeLike(ps), msg)
+		},
+		cosAggregate: func(c *l22signing.Cosigner[*pasta.PallasPoint, *pasta.PallasScalar, *mina.Message], pm *lindell22.PublicMaterial[*pasta.PallasPoint, *pasta.PallasScalar], ps map[ID]*lindell22.PartialSignature[*pasta.PallasPoint, *pasta.PallasScalar], msg *mina.Message) (*schnorrlike.Signature[*pasta.PallasPoint, *pasta.PallasScalar], error) {
+			sc, err := mina.NewRandomisedScheme(mina.TestNet, vlib.NewPRNG(1, "agg"))
+			if err != nil {
+				return nil, err
+			}
+			agg, err := l22signing.NewCosigningAggregator(c, pm, sc)
 			if err != nil {
 				return nil, err
 			}
@@ -297,4 +329,88 @@ func minaMessage(b []byte) (*mina.Message, error) {
 	m := new(mina.ROInput).Init()
 	m.AddString(string(b))
 	return m, nil
+}
+
+func (s *schnorrSuite[GE, S, M]) CosigningSign(tb testing.TB, ctxs map[ID]*session.Context, bases map[ID]any, quorum []ID, comp compiler.Name, message []byte, seed uint64) ([]*SchnorrSig, bool, error) {
+	if s.cosAggregate == nil {
+		return nil, false, nil
+	}
+	m, err := s.message(message)
+	if err != nil {
+		return nil, true, err
+	}
+	q := SortedIDs(quorum)
+	cos := map[ID]*l22signing.Cosigner[GE, S, M]{}
+	var list []*l22signing.Cosigner[GE, S, M]
+	var pm *lindell22.PublicMaterial[GE, S]
+	for _, id := range q {
+		sh, err := s.shard(bases[id])
+		if err != nil {
+			return nil, true, err
+		}
+		pm = sh.PublicKeyMaterial()
+		prng := PartyPRNG(seed, "l22-cosigning", id)
+		v, err := s.variant(prng)
+		if err != nil {
+			return nil, true, err
+		}
+		c, err := l22signing.NewCosigner(ctxs[id], sh, comp, v, prng)
+		if err != nil {
+			return nil, true, fmt.Errorf("cosigner %d: %w", id, err)
+		}
+		cos[id] = c
+		list = append(list, c)
+	}
+	r1b := map[ID]*l22signing.Round1Broadcast[GE, S, M]{}
+	r1u := map[ID]network.RoundMessages[*l22signing.Round1P2P[GE, S, M], *l22signing.Cosigner[GE, S, M]]{}
+	for _, id := range q {
+		b, u, err := cos[id].Round1()
+		if err != nil {
+			return nil, true, fmt.Errorf("round 1 of %d: %w", id, err)
+		}
+		r1b[id], r1u[id] = b, u
+	}
+	r2bIn, r2uIn := ntu.MapO2I(tb, list, r1b, r1u)
+	r2b := map[ID]*l22signing.Round2Broadcast[GE, S, M]{}
+	for _, id := range q {
+		b, err := cos[id].Round2(r2bIn[id], r2uIn[id])
+		if err != nil {
+			return nil, true, fmt.Errorf("round 2 of %d: %w", id, err)
+		}
+		r2b[id] = b
+	}
+	r3bIn := ntu.MapBroadcastO2I(tb, list, r2b)
+	ps := map[ID]*lindell22.PartialSignature[GE, S]{}
+	for _, id := range q {
+		p, err := cos[id].Round3(r3bIn[id], m)
+		if err != nil {
+			return nil, true, fmt.Errorf("round 3 of %d: %w", id, err)
+		}
+		ps[id] = p
+	}
+	var out []*SchnorrSig
+	conv := func(sig *schnorrlike.Signature[GE, S]) *SchnorrSig {
+		o := &SchnorrSig{S: lx.Big(sig.S), R: sig.R.Bytes()}
+		if !isNilScalar(sig.E) {
+			o.E = lx.Big(sig.E)
+		}
+		if s.last == nil {
+			s.last = map[string]*schnorrlike.Signature[GE, S]{}
+		}
+		s.last[o.String()] = sig
+		return o
+	}
+	for _, id := range q {
+		sig, err := s.cosAggregate(cos[id], pm, ps, m)
+		if err != nil {
+			return nil, true, fmt.Errorf("COSIGNING-AGGREGATOR of party %d rejected an all-honest run: %w", id, err)
+		}
+		out = append(out, conv(sig))
+	}
+	sig, err := s.aggregate(pm, ps, m)
+	if err != nil {
+		return nil, true, fmt.Errorf("plain aggregator: %w", err)
+	}
+	out = append(out, conv(sig))
+	return out, true, nil
 }
